@@ -152,5 +152,19 @@ func init() {
 				}
 			}},
 	}
-	c04Scenarios = append(added, c04Scenarios...)
+	all := map[string]c04Scenario{}
+	for _, sc := range append(added, c04Scenarios...) {
+		all[sc.Name] = sc
+	}
+	// order of exploration inside one bound: the small ones first, so that a run cut by its deadline has completed them
+	order := []string{"S6_snap_flush_read", "S7_snap_flush_write", "S3_read_merge_write", "S8b_dropother_read_write",
+		"S8a_drop_read_write", "S9_fullcompact_read", "S1_write_flush_read", "S5_two_writers_read", "S4a_write_close",
+		"S4b_read_close", "S4c_flush_close", "S4d_drop_close", "S2_read_compact_flush"}
+	if len(order) != len(all) {
+		panic("c04: scenario order list out of date")
+	}
+	c04Scenarios = c04Scenarios[:0]
+	for _, n := range order {
+		c04Scenarios = append(c04Scenarios, all[n])
+	}
 }
